@@ -34,6 +34,7 @@ CHECK = Check(
         "(value and type), unordered => duplicate-free sub-multiset; events only on the paired channel; nothing escapes the "
         "receive path. Non-trivial = a datagram was dropped, duplicated or delayed after establishment and a multi-fragment "
         "message was sent."
+        " Families yielding-send / bundling: the same sessions over a link whose datagram send suspends (none / one loop turn / 1 ms-1.2 s, per datagram) and over a sender that merges the datagrams of one loop turn into multi-chunk packets; one send in twelve carries a payload that looks like a protocol artefact (lone NUL, NULs filling one fragment exactly, DCEP-like bytes)."
     ),
     families=[
         Family("sessions", run_session, lambda tier: session_case(tier, reliable_only=True, max_sends=40 if tier == "quick" else 60),
